@@ -504,6 +504,31 @@ func c17DFSOracle(x *Exec, res *vsched.Result, job *Job) []Viol {
 		out = append(out, Viol{Key: "C17/hits-plus-misses-differs-from-gets", What: fmt.Sprintf("Hits %d + Misses %d != %d Get calls", hits, misses, gets)})
 	}
 	_ = added
+	// the other laws, white-box at the drained state after the epilogue's Wait
+	if d := x.AfterEpi; d != nil && d.SetBuf == 0 && d.Metric != nil {
+		m := map[string]uint64{}
+		for i, n := range ristretto.VerifMetricNames() {
+			m[n] = d.Metric[i]
+		}
+		if m["keys-added"]-m["keys-evicted"] != uint64(len(d.Store)) {
+			out = append(out, Viol{Key: "C17/keysadded-minus-keysevicted-differs-from-resident", What: fmt.Sprintf("KeysAdded %d - KeysEvicted %d != %d keys in the map", m["keys-added"], m["keys-evicted"], len(d.Store))})
+		}
+		if m["cost-added"]-m["cost-evicted"] != uint64(d.Used) {
+			out = append(out, Viol{Key: "C17/costadded-minus-costevicted-differs-from-used", What: fmt.Sprintf("CostAdded %d - CostEvicted %d != accounted cost %d", m["cost-added"], m["cost-evicted"], d.Used)})
+		}
+		var drops uint64
+		for _, e := range res.Events {
+			if e.Kind == evSetRet && e.C == 0 {
+				drops++
+			}
+		}
+		if m["sets-dropped"] != drops {
+			out = append(out, Viol{Key: "C17/setsdropped-differs-from-refused-sets", What: fmt.Sprintf("SetsDropped %d != %d refused Sets", m["sets-dropped"], drops)})
+		}
+		if m["gets-kept"]+m["gets-dropped"] > uint64(gets) {
+			out = append(out, Viol{Key: "C17/getskept-plus-getsdropped-exceeds-gets", What: fmt.Sprintf("GetsKept %d + GetsDropped %d > %d Gets", m["gets-kept"], m["gets-dropped"], gets)})
+		}
+	}
 	return out
 }
 
